@@ -281,7 +281,11 @@ func TestC11(t *testing.T) {
 			// trailing garbage after the declared list length does not change the result
 			junk := hello.GenBytes(t, "junk", rapid.IntRange(1, 20).Draw(t, "junklen"))
 			var p2 []ech.ConfigSpec
-			e = guard(func() error { var e error; p2, e = ech.ParseConfigList(append(append([]byte{}, list...), junk...)); return e })
+			e = guard(func() error {
+				var e error
+				p2, e = ech.ParseConfigList(append(append([]byte{}, list...), junk...))
+				return e
+			})
 			if isPanic(e) {
 				ev.Violation(t, "C11", map[string]any{"bytes": hx(list), "junk": hx(junk)}, "panic: %v", e)
 			}
@@ -292,7 +296,11 @@ func TestC11(t *testing.T) {
 			if len(cfgs) > 0 {
 				var s1, s2 ech.ConfigSpec
 				guard(func() error { s1, _ = cfgs[0].Spec(); return nil })
-				e := guard(func() error { var e error; s2, e = ech.Config(append(append([]byte{}, cfgs[0]...), junk...)).Spec(); return e })
+				e := guard(func() error {
+					var e error
+					s2, e = ech.Config(append(append([]byte{}, cfgs[0]...), junk...)).Spec()
+					return e
+				})
 				if isPanic(e) || (e == nil && fmt.Sprintf("%+v", s1) != fmt.Sprintf("%+v", s2)) {
 					ev.Violation(t, "C11", map[string]any{"bytes": hx(cfgs[0]), "junk": hx(junk)}, "bytes after the declared config length changed Spec() (err=%v)", e)
 				}
